@@ -1,5 +1,57 @@
+import OpusModel.SoftClip
 import Driver.Util
-/- Suite stub — replaced by the owner of this suite. -/
+/- Suite `softclip`: opus_pcm_soft_clip at binary32 (C19), OPUS_SET_GAIN, the gain factor.
+
+   clip <N> <C> <flags> <mem> <x>   flags: bit0 = _x is NULL, bit1 = declip_mem is NULL;
+                                    <mem>, <x> = the caller's float arrays as little-endian bytes
+                                    → `<class> <x'> <mem'>` (same encoding; class ∈ ignored/same/same-carry/clipped/clipped-carry) or OOB
+   gainctl <cur> <value>            OPUS_SET_GAIN(value) on a decoder whose gain is cur → `OK <gain'>` / `BAD_ARG <gain'>`
+   gainval <g>                      celt_exp2(6.48814081e-4f*g) → bit pattern (decimal)              -/
 namespace Driver.SuiteSoftClip
-def handle (_ : List String) : String := "bad-op"
+open Opus Opus.SoftClip Driver
+
+def bytesToF32 (bs : Bytes) : Option (Array Float32) :=
+  let rec go : List Nat → Array Float32 → Option (Array Float32)
+    | [], acc => some acc
+    | a :: b :: c :: d :: rest, acc =>
+      go rest (acc.push (Float32.ofBits (UInt32.ofNat (a + 256 * b + 65536 * c + 16777216 * d))))
+    | _, _ => none
+  go bs #[]
+
+def f32ToBytes (xs : Array Float32) : Bytes :=
+  xs.toList.flatMap fun f =>
+    let u := f.toBits.toNat   -- `toBits` canonicalises NaN to 0x7fc00000; the harness prints NaNs the same way
+    [u % 256, u / 256 % 256, u / 65536 % 256, u / 16777216 % 256]
+
+def handle : List String → String
+  | ["clip", n, c, flags, memh, xh] =>
+    match parseInt n, parseInt c, parseNat flags, parseHex memh, parseHex xh with
+    | some n, some c, some flags, some memb, some xb =>
+      match bytesToF32 memb, bytesToF32 xb with
+      | some mem, some x =>
+        match softClip (flags % 2 == 1) (flags / 2 % 2 == 1) x mem n c with
+        | .ok (x', mem') =>
+          let xb' := f32ToBytes x'
+          let changed := xb' != xb
+          let carried := mem'.any (fun m => m.toBits != 0)
+          let cls := if n < 1 || c < 1 || flags % 4 != 0 then "ignored"
+            else if changed then (if carried then "clipped-carry" else "clipped")
+            else (if carried then "same-carry" else "same")
+          s!"{cls} {toHex xb'} {toHex (f32ToBytes mem')}"
+        | r => resStr (fun _ => "") r
+      | _, _ => "bad-op"
+    | _, _, _, _, _ => "bad-op"
+  | ["gainctl", cur, v] =>
+    match parseInt cur, parseInt v with
+    | some cur, some v =>
+      match setGain cur v with
+      | (.ok _, g) => s!"OK {g}"
+      | (r, g) => s!"{resStr (fun (_ : Int) => "") r} {g}"
+    | _, _ => "bad-op"
+  | ["gainval", g] =>
+    match parseInt g with
+    | some g => s!"G {(gainOfF32 g).toBits.toNat}"
+    | none => "bad-op"
+  | _ => "bad-op"
+
 end Driver.SuiteSoftClip
